@@ -1,4 +1,5 @@
 import TapkeeVerif.Proofs.ConnectedPerm
+import TapkeeVerif.Proofs.ConnectedOracle
 import TapkeeVerif.Model.Knn
 /-!
 # Property C03 — check_connectivity guarantees a graph on which all geodesics are finite
@@ -97,6 +98,12 @@ theorem stronglyConnected_order_independent {g : Graph} {N k : Nat} {π inv : Li
     (hp : IsPermPair π inv N) (hN : 0 < N) :
     StronglyConnected (relabel g π inv) N ↔ StronglyConnected g N :=
   stronglyConnected_relabel hu hp hN
+
+/-- the executable oracle the driver runs on the implementation's lists (closure from every vertex — an
+    algorithm independent of `is_connected`) is sound: `true` means strongly connected -/
+theorem stronglyConnected_sound {g : Graph} {N : Nat} (hlen : g.length = N) (h : stronglyConnected g N = true) :
+    StronglyConnected g N :=
+  stronglyConnected_sound' hlen h
 
 /-! ### why the repair F-CONN-DIR was needed (Lean-checked witnesses about the *old* test = forward search only) -/
 
